@@ -20,6 +20,8 @@ A property plugin is a module harness/props/Cxx.py defining:
   N_QUICK, N_THOROUGH                     case budgets
   ISOLATE = True                          (optional) each impl case in a fresh interpreter
   EXTRA_OBLIGATIONS(ctx) -> [(name, ok, detail)]   (optional) generated obligations
+  focus(changed) -> None                  (optional) told which source functions ("file.py:Class.method") differ
+                                          from the pinned fingerprints, so that the generator can aim at them
 """
 import concurrent.futures as cf
 import fcntl
@@ -58,6 +60,17 @@ TRUSTED_BASE = [
     "harness: generators, implementation runner, canonicalisers in /verif/harness",
     "CPython 3.12 and its standard library as modelled (see DESIGN.md section 3)",
 ]
+
+
+def source_changes():
+    """functions of maflib whose normalised AST differs from harness/fingerprints_pinned.json (the tree the models were
+    written against).  A difference is not an alarm: it raises the case budget and lets the plugin aim its generator."""
+    try:
+        cur = json.load(open(COQ + "/gen/fingerprints.json"))
+        pin = json.load(open(VERIF + "/harness/fingerprints_pinned.json"))
+    except (OSError, ValueError):
+        return None
+    return sorted(k for k in set(cur) | set(pin) if cur.get(k) != pin.get(k))
 
 
 def log(*a):
@@ -458,6 +471,18 @@ def main(argv):
 
     # ---- 3/4: corpus + generated cases
     n = mod.N_THOROUGH if args.tier == "thorough" else mod.N_QUICK
+    changed = source_changes()
+    steer = {"changed_functions": changed, "budget_multiplier": 1, "focus": False}
+    if changed:
+        if args.tier == "quick":
+            steer["budget_multiplier"] = 3
+            n = n * 3
+        if hasattr(mod, "focus"):
+            try:
+                mod.focus(changed)
+                steer["focus"] = True
+            except Exception as e:
+                steer["focus"] = "focus() failed: %r" % (e,)
     rng = random.Random(seed * 1000003 + int(hashlib.sha256(pid.encode()).hexdigest()[:6], 16))
     corpus = list(mod.corpus())
     gen = list(mod.generate(rng, n))
@@ -571,7 +596,7 @@ def main(argv):
             "correspondence": {"cases": len(results), "corpus_cases": len(corpus), "agree": sum(1 for r in results if r["agree"]),
                                "disagree": len(disagreements), "errors": len(harness_errors)},
             "oracle_violations_on_impl": len(violating), "distribution": dist,
-            "build": bdetail, "widened_search_cases": widened, "coqchk": coqchk,
+            "build": bdetail, "widened_search_cases": widened, "coqchk": coqchk, "source_steering": steer,
         },
         "assumptions": list(getattr(mod, "ASSUMPTIONS", [])),
         "wall_s": round(time.time() - t0, 2),
